@@ -479,7 +479,7 @@ func ruleC17R5(c *Ctx) {
 				return
 			}
 			n++
-			c.check(allowed[anchorName(fn)], "C17.R5", fn, "write of a client slot", in.Pos(), "slots are written only by NewSink, reload and ReloadableSink.Close", "a client slot is written outside NewSink / reload / ReloadableSink.Close")
+			c.check(ownedByAny(fn, allowed), "C17.R5", fn, "write of a client slot", in.Pos(), "slots are written only by NewSink, reload and ReloadableSink.Close", "a client slot is written outside NewSink / reload / ReloadableSink.Close")
 		})
 	}
 	c.floor("C17.R5", "slot writes", n, 4)
